@@ -793,8 +793,8 @@ def run(ctx):
     ctx.notes["known_class_hits"] = {k: sum(1 for o in orc if o["known"] == k) for k in hit}
     ctx.cov["distinct_nontrivial"] = len(DISTINCT)
     if corr:
-        ctx.broken.append("correspondence key: %d of %d runs differ between the extracted model and the library, e.g. %s" % (
-            len(corr), ctx.cov["traces_validated_against_impl"], corr[0]["what"][:600]))
+        ctx.broken.append("correspondence key: %d probe answers in %d of %d runs differ between the extracted model and the library, e.g. %s" % (
+            len(corr), len({x["case"] for x in corr}), ctx.cov["traces_validated_against_impl"], corr[0]["what"][:600]))
         ctx.notes["correspondence_mismatches"] = [c["what"][:400] for c in corr[:10]]
         if corr[0].get("replay"):
             with open(os.path.join(core.OUT, "C15", "correspondence_first.json"), "w") as f:
